@@ -210,6 +210,18 @@ def gen_jobs(ctx):
         fs = freqs_for(case, rng, res)
         for w in rng.sample(fs, min(len(fs), 2 if quick else 4)):
             jobs.append(('random-resolution', case, w, res, rng.random() < 0.6))
+    # sources far above 1 rad/s: the activity window is ABSOLUTE (|w - w_s| <= resolution), whatever the magnitude of w
+    for _ in range(20 if quick else 400):
+        case = circgen.random_circuit(rng)
+        big = rng.choice([1e6, 3e7, 2.5e5, 1e9])
+        srcs = [c for c in case['components'] if c['kind'] in ('ac_voltage_source', 'ac_current_source')]
+        if not srcs:
+            continue
+        srcs[0]['params']['w'] = big
+        for k in (2.0, 5.0, 40.0, -3.0, 0.5):
+            w = big + k * RES
+            if w != big and abs(abs(w - big) - RES) > 1e-6 * RES:         # stay off the boundary itself (float subtraction at this magnitude)
+                jobs.append(('high-frequency', case, w))
     return jobs
 
 
